@@ -22,7 +22,7 @@ def sig_of(row, why):
             flags.append("setter-after-preset")
     return "C20/%s/%s/T%dP%d/%s/%s/%s" % (
         why, "custom" if cd["spec"]["custom"] else "predef", int(env["specT"]), int(env["specP"]), sc.srv_label(cd["srv"]),
-        sc.first_failure(ev), "+".join(flags) or "-")
+        sc.failure_for(why, ev), "+".join(flags) or "-")
 
 
 def given_of(ev):
@@ -71,17 +71,21 @@ def run(ctx):
     lap("replay + validation done")
     ctx.traces += n
     # ---- vacuity: the branches the property needs must have been exercised and accepted
+    # (when TLC rejected scenarios, an empty class is part of that verdict, not a reason to withhold it)
     missing = [k for k, v in acc.items() if v == 0]
-    if missing:
+    if missing and not rej:
         raise vlib.Machinery("C20 vacuous: no accepted scenario of kind %s (accepted: %r)" % (missing, acc))
-    if not seen["resumed"]:
+    if not seen["resumed"] and not rej:
         raise vlib.Machinery("C20 vacuous: no connection resumed at all")
     # ---- binding canaries: a corrupted observation of an accepted scenario must be rejected
     canaries = []
-    if "ticket" not in keep or "psk" not in keep:
+    if ("ticket" not in keep or "psk" not in keep) and not rej:
         raise vlib.Machinery("C20: no accepted injected-and-resumed scenario to build the canaries from")
-    good, goodp = keep["ticket"], keep["psk"]
+    good, goodp = keep.get("ticket"), keep.get("psk")
     def mutate(pair, f, what):
+        if pair is None:
+            ctx.note("canary '%s' skipped: every scenario it could be built from was rejected (see findings)" % what)
+            return
         rs = copy.deepcopy(sc.rows_of(pair[0], pair[1]))
         for r in rs:
             r["sid"] = 900000 + len(canaries)
@@ -101,7 +105,7 @@ def run(ctx):
     mutate(goodp, lambda ev: ev["ops"][-1].update(res="panic", msg=[ord(c) for c in "runtime error: index out of range"], rterr=True), "runtime panic injected")
     mutate(good, lambda ev: ev["ops"][0].update(res="err", msg=[ord(c) for c in "tls: boom"]), "legal call error injected")
     crow = [r for _, rs in canaries for r in rs]
-    crej, _, _ = sc.validate(ctx, crow, "c20canary", nshards=1)
+    crej, _, _ = sc.validate(ctx, crow, "c20canary", nshards=1) if crow else ([], [], 0)
     caught = {r["sid"] for r, _ in crej}
     for what, rs in canaries:
         if rs[0]["sid"] not in caught:
